@@ -408,7 +408,15 @@ func runSeq(p *DPlan, system string, keepLog bool, prefix string) seqResult {
 					f := faultInOp()
 					if f != nil {
 						res.faultHit = true
-						if !pan {
+						if !pan && f.Errno == int(simunix.EINTR) {
+							// an interrupted fsync may be retried; the flush that
+							// finally succeeded covers the writes
+							lastBarrier = map[uint64]expBlock{}
+							for j := range cur {
+								lastBarrier[uint64(j)] = cur[j]
+							}
+							sinceBarrier = map[uint64]bool{}
+						} else if !pan {
 							fail(prefix+".fault.silent", fmt.Sprintf("%s.fault.silent/fsync/%s", prefix, f.Kind), fmt.Sprintf("op %d: Barrier returned normally although its fsync failed (errno %d)", oi, f.Errno))
 							return
 						}
@@ -443,14 +451,31 @@ func runSeq(p *DPlan, system string, keepLog bool, prefix string) seqResult {
 					switch {
 					case f != nil:
 						res.faultHit = true
-						// failed or short write: the targeted block is
-						// unconstrained until it is next written successfully
+						// A failed or short pwrite inside this Write. The property
+						// forbids SILENT loss, not recovery: if the call panics the
+						// block is unconstrained until it is next written; if it
+						// returns normally (e.g. a correct retry loop completed the
+						// transfer) the block must hold exactly the new value, which
+						// is verified at once by reading it back.
 						if op.Addr < rd.N {
 							cur[op.Addr] = expBlock{}
 						}
-						if !pan && (f.Kind == "errno" || f.Kind == "short") {
-							fail(prefix+".fault.silent", fmt.Sprintf("%s.fault.silent/pwrite/%s", prefix, f.Kind), fmt.Sprintf("op %d: Write(%d) returned normally although its pwrite %s", oi, op.Addr, describeFault(f)))
-							return
+						if !pan && op.Addr < rd.N && n == model.BlockSize {
+							var back []byte
+							k.Quiet = true // the harness's own observation: no fault, not counted
+							bpan, bmsg := attempt(func() { back = api.Read(op.Addr) })
+							k.Quiet = false
+							want := expBlock{known: true, id: op.ID}
+							ok, why := false, "the read-back panicked: "+bmsg
+							if !bpan {
+								ok, why = want.matches(back, op.Addr)
+							}
+							if !ok {
+								fail(prefix+".fault.silent", fmt.Sprintf("%s.fault.silent/pwrite/%s", prefix, f.Kind), fmt.Sprintf("op %d: Write(%d) returned normally although its pwrite %s, and the block does not hold the written value: %s", oi, op.Addr, describeFault(f), why))
+								return
+							}
+							cur[op.Addr] = want
+							res.probes = addProbe(res.probes, "faulted_write_recovered")
 						}
 					case pan != wantRefused:
 						fail(prefix+".refusal", "", fmt.Sprintf("op %d: Write(addr %d, %d-byte buffer) on a %d-block disk: panicked=%v (%s), expected %v", oi, op.Addr, n, rd.N, pan, msg, wantRefused))
